@@ -129,6 +129,36 @@ def random_apex(rng, depth, acc=None):
     return (n, rng.randrange(2 ** n), rng.randrange(2 ** n))
 
 
+def gap_cases(rng, n):
+    """depth-3 TOAST pyramids in which a live level-1 tile has two or three live level-2 children *and* an accepted level-2
+    child with no accepted leaf (a dead "gap" tile), the gap tile in a chosen place of the yield order — state carried
+    from a dead tile to the next yielded tile is what these exercise"""
+    out = []
+    for _ in range(n):
+        top = (1, rng.randrange(2), rng.randrange(2))
+        kids = children(top)
+        gap_at = rng.choice([3, 3, 2, 0])
+        acc = {top}
+        for i, c in enumerate(kids):
+            if i == gap_at:
+                acc.add(c)                                   # accepted, none of its children accepted
+            elif rng.random() < 0.85 or i == (gap_at + 1) % 4 or i == (gap_at + 2) % 4:
+                acc.add(c)
+                leaves = [l for l in children(c) if rng.random() < 0.6] or [rng.choice(children(c))]
+                acc.update(leaves)
+        # sometimes a second, fully live level-1 tile
+        if rng.random() < 0.5:
+            other = (1, 1 - top[1], top[2])
+            acc.add(other)
+            c = rng.choice(children(other))
+            acc.add(c)
+            acc.add(rng.choice(children(c)))
+        pc = PyrCase(3, "t", acc, None)
+        pc.tag = "gap"
+        out.append(pc)
+    return out
+
+
 def cases(rng, n_random, max_depth, exhaustive_depth1=True):
     out = []
     if exhaustive_depth1:
@@ -146,6 +176,8 @@ def cases(rng, n_random, max_depth, exhaustive_depth1=True):
         out.append(PyrCase(2, "t", {(1, 1, 0)}, None))          # accepts a tile, none of its children
         out.append(PyrCase(3, "t", {(1, 1, 0), (2, 2, 0)}, (1, 1, 0)))
         out.append(PyrCase(2, "t", {(1, 0, 0), (2, 0, 0)}, (1, 1, 1)))  # filter disjoint from sub-pyramid
+    if max_depth >= 3:
+        out.extend(gap_cases(rng, 3 if n_random < 100 else 8))
     for _ in range(n_random):
         d = rng.choice([1, 2, 2, 3, 3, 3, 4, 4, 5][: max(1, 2 * max_depth - 1)])
         d = min(d, max_depth)
